@@ -3,6 +3,7 @@ use std::io::{self, BufRead, Write};
 
 mod heap;
 mod json;
+mod modl;
 mod num;
 mod path;
 mod pos;
@@ -18,6 +19,7 @@ fn main() {
     let f: fn(&str) -> String = match model {
         "path" => path::line,
         "heap" => heap::line,
+        "mod" => modl::line,
         "pos" => pos::line,
         "prog" => prog::line,
         "regalloc" => regalloc::line,
